@@ -7,6 +7,7 @@ import dataclasses
 import inspect
 from collections import Counter, defaultdict
 from collections.abc import Callable  # noqa: TC003 (sphinx needs unconditional import)
+from copy import deepcopy
 from enum import Enum
 from functools import cache
 from itertools import chain
@@ -130,7 +131,9 @@ class _EvalTransformer(ast.NodeTransformer):
                             ast.Expr(
                                 ast.Call(
                                     ast.Name(id="offdiag", ctx=ast.Load()),
-                                    [node.body[0].value],
+                                    # The expression is transformed separately for
+                                    # each of the two branches.
+                                    [deepcopy(node.body[0].value)],
                                     [],
                                 )
                             )
@@ -392,7 +395,9 @@ class _FunctionTransformer(ast.NodeTransformer):
             ),
             ast.Name(id="index", ctx=ast.Load()),
         ]
-        return node
+        # Also transform function calls nested in the arguments, e.g. those wrapped
+        # into `diag` or `offdiag`.
+        return self.generic_visit(node)
 
 
 def _parse_return(node: ast.Return) -> list[str]:
